@@ -182,6 +182,84 @@ def auglag_build(ri):
     return lines, want, nev, (",".join(budgets) or "-") if local_me in ("0", "-1") else None
 
 
+MLSL = ("NLOPT_GN_MLSL", "NLOPT_GN_MLSL_LDS", "NLOPT_GD_MLSL", "NLOPT_GD_MLSL_LDS", "NLOPT_G_MLSL", "NLOPT_G_MLSL_LDS")
+
+
+def mlsl_build(ri):
+    """segments an MLSL run into its own sample evaluations and the local searches (nested markers); (lines, want, events, budgets)"""
+    r = ri.run
+    iv = inner_view(ri)
+    if iv is None:
+        return None
+    cfg, _, res = iv
+    if int(cfg["n"]) == 0 or "ineq" in ri.sp or "eq" in ri.sp:
+        return None
+    fixed = [i for i, (a, b) in enumerate(zip(ri.lb, ri.ub)) if a == b] if int(cfg["n"]) != ri.n else []
+    stopat = int(ri.sp["stopat"]) if "stopat" in ri.sp else None
+    segs, open_at = [], None
+    for k, at, d in r.nest:
+        if d.get("d") != "2":
+            continue
+        if k == 10:
+            open_at = (at, d)
+        elif k == 11 and open_at is not None:
+            segs.append((open_at[0], at, open_at[1], d))
+            open_at = None
+    if open_at is not None:
+        return None
+    lines = ["cfg n=%s pop=%s maxeval=%s stopval=%s x0=%s lb=%s ub=%s" % (cfg["n"], cfg["pop"], cfg["maxeval"], cfg["stopval"], cfg["x"] or "-",
+                                                                      cfg["lb"] or "-", cfg["ub"] or "-")]
+    calls, pos, nev, budgets = r.calls, 0, 0, []
+    for a, b, d10, d11 in segs + [(len(calls), len(calls), None, None)]:
+        for idx in range(pos, a):
+            c = calls[idx]
+            if c.kind != "f":
+                return None
+            xin = [h for i, h in enumerate(c.x.split(",")) if i not in fixed]
+            lines.append("eval %s %s %d" % (_vec(xin), neg(c.val) if ri.maximize else c.val, 1 if (stopat is not None and idx + 1 == stopat) else 0))
+            nev += 1
+        if d10 is not None:
+            used = sum(1 for c in calls[a:b] if c.kind == "f")
+            forced = 1 if (stopat is not None and a < stopat <= b) else 0
+            lines.append("sub %s %s %s %s %d %d" % (d11["ret"], d10["x"] or "-", d11["x"] or "-", d11["minf"], used, forced))
+            budgets.append(d10["maxeval"])
+            nev += 1
+        pos = b
+    lines += ["end", "budgets"]
+    total = sum(1 for c in calls if c.kind == "f")
+    want = "%d %d %s %s 0 0" % (res["ret"], total, res["x"] or "-", res["minf"])
+    local_me = ri.sp["local"].split(":")[1] if "local" in ri.sp else "0"
+    legacy = "legacy" in ri.sp or "glocal" in ri.sp
+    return lines, want, nev, (",".join(budgets) or "-") if (local_me in ("0", "-1") and not legacy) else None
+
+
+def mma_build(ri):
+    """MMA / CCSAQ: one event per evaluation (objective + constraint callbacks); the conservativity booleans of the dual solve
+    are not observable, so the model is asked whether SOME assignment of them reproduces the result (`endsearch`)"""
+    iv = inner_view(ri)
+    if iv is None:
+        return None
+    cfg, evs, res = iv
+    if int(cfg["n"]) == 0 or not evs or "eq" in ri.sp or len(evs) > 400:
+        return None
+    tol = _tols(cfg["fc"])
+    flat = ",".join(t for t in tol.replace(";", ",").split(",") if t and t != "-") or "-"
+    nobj = 0 if tol == "-" else len(tol.split(";"))
+    inner = "0"
+    for it in cfg.get("params", "[]").strip("[]").split(";"):
+        if it.startswith("inner_maxeval:"):
+            from .common import unhex
+            inner = str(int(unhex(it.split(":")[1])))
+    lines = ["cfg alg=%s n=%s x0=%s tol=%s mfc=%d inner_maxeval=%s maxeval=%s stopval=%s ftol_rel=%s ftol_abs=%s xtol_rel=%s xtol_abs=%s xw=%s" % (
+        "mma" if ri.name == "NLOPT_LD_MMA" else "ccsa", cfg["n"], cfg["x"] or "-", flat, nobj, inner, cfg["maxeval"], cfg["stopval"],
+        cfg["ftol_rel"], cfg["ftol_abs"], cfg["xtol_rel"], cfg["xtol_abs"] or "-", cfg["xw"] or "-")]
+    for e in evs:
+        g = ",".join(",".join(v) for _, _, v in e["cons"]) or "-"
+        lines.append("ev %s %s %d %s" % (_vec(e["x"]), e["f"], e["stop"], g))
+    lines.append("endsearch %d %d %s %s" % (res["ret"], len(evs), res["x"] or "-", res["minf"]))
+    return lines, "ok", len(evs), None
+
+
 MODELS = {"NLOPT_GN_ESCH": ("esch", esch_text, 1, None), "NLOPT_GN_ISRES": ("isres", isres_text, 1, None),
           "NLOPT_GN_CRS2_LM": ("crs", crs_text, 1, None), "NLOPT_LN_NELDERMEAD": ("nm", nm_text, 2, nm_judge)}
 POSINF = "7ff0000000000000"
@@ -201,15 +279,17 @@ def correspond(ctx, batch, label):
     for _, r, ri in batch:
         if not usable(ri):
             continue
-        if ri.name in AUGLAG:
+        special = ("auglag", auglag_build, 2) if ri.name in AUGLAG else ("mlsl", mlsl_build, 2) if ri.name in MLSL else \
+                  ("mma", mma_build, 1) if ri.name in ("NLOPT_LD_MMA", "NLOPT_LD_CCSAQ") else None
+        if special:
             try:
-                b = auglag_build(ri)
+                b = special[1](ri)
             except Exception:
                 b = None
             if b is None or b[2] == 0:
                 continue            # no event at all: a set-up call on the subsidiary object failed before the loop (not modelled)
             lines, want, nev, budgets = b
-            by_stream.setdefault("auglag", []).append((r, ri, lines, nev, {"ret": ri.run.e11["ret"]}, want, 2, budgets))
+            by_stream.setdefault(special[0], []).append((r, ri, lines, nev, {"ret": ri.run.e11["ret"]}, want, special[2], budgets))
             continue
         if ri.name not in MODELS:
             continue
@@ -243,7 +323,9 @@ def correspond(ctx, batch, label):
             st["runs_replayed"] += 1
             st["events_replayed"] += nev
             st["return_codes"][str(res["ret"])] = st["return_codes"].get(str(res["ret"]), 0) + 1
-            if stream == "auglag":
+            if stream == "mma":
+                ok, got = out[k - 1].startswith("ok"), out[k - 1]
+            elif stream in ("auglag", "mlsl"):
                 ok, got = outs[0] == want, outs[0]
                 if ok and judge is not None and outs[1] != judge:
                     ok, got = False, "budgets handed to the subsidiary runs: model %s, implementation %s" % (outs[1], judge)
